@@ -743,7 +743,7 @@ def run(run: Run):
     run.sample({"msg": ["command", OUT, 1], "assign": [["ss", 0, "take"]], "note": "single legal action + command channel"})
     run.sample({"msg": ["rlv2", IN, 0], "assign": [["rlv", 1, "true_first"], ["lu", 0, "valueerror"]]})
     run.sample({"machine": [OUT, 1, 1, ["take", "drop", "send", "sendcopy"]]})
-    U.restore_uuid4()
+    U.shutdown()
 
 
 def replay(witness):
